@@ -24,8 +24,8 @@ pub struct Justify {
     hist: HashMap<LKey, Vec<Done>>,
     validated: HashMap<LKey, u32>,
     field_writes: BTreeMap<(u8, u8), Vec<u32>>,
-    /// ent id -> list of (rev, end pos, tv, tn-was-rewritten)
-    ent_updates: HashMap<u64, Vec<(u32, usize, u32)>>,
+    /// ent id -> list of (rev, log pos, tv, durability at creation)
+    ent_updates: HashMap<u64, Vec<(u32, usize, u32, u8)>>,
     /// (rev, id index) of interned slot reuse
     reuses: Vec<(u32, u32)>,
     pending: HashMap<u32, Vec<DK>>,
@@ -90,14 +90,18 @@ impl Justify {
             }
             if let Some(ups) = self.ent_updates.get(id) {
                 // updates after rv; tv: value differs from the value before that update
-                let mut prev_tv: Option<u32> = None;
-                for (r, p, tv) in ups {
+                let mut prev: Option<(u32, u8)> = None;
+                for (r, p, tv, dur) in ups {
                     if *r > rv && *p < pos {
-                        if *which == 2 || prev_tv.map(|t| t != *tv).unwrap_or(true) {
+                        if *which == 2 || prev.map(|(t, _)| t != *tv).unwrap_or(true) {
                             return Some("struct-field-recreated");
                         }
+                        // recreated by a less durable creator: salsa re-stamps every field
+                        if prev.map(|(_, d)| *dur < d).unwrap_or(false) {
+                            return Some("struct-less-durable");
+                        }
                     }
-                    prev_tv = Some(*tv);
+                    prev = Some((*tv, *dur));
                 }
             }
         }
@@ -170,7 +174,7 @@ impl Oracle for Justify {
                     }
                 }
                 Rec::Ev(_, Ev::DidReuseInterned(dk)) => self.reuses.push((rev, idx_of(dk.id))),
-                Rec::Made(_, c) => self.ent_updates.entry(c.id).or_default().push((rev, pos, c.tv)),
+                Rec::Made(_, c) => self.ent_updates.entry(c.id).or_default().push((rev, pos, c.tv, c.dur)),
                 Rec::Start(k, tid) => {
                     let dk = self.pending.entry(*tid).or_default().pop();
                     self.open.entry(*tid).or_default().push((*k, dk, pos));
@@ -207,7 +211,8 @@ impl Oracle for Justify {
                             _ => {}
                         }
                         let noeq = Self::kind_of(prog, k) == Some(Kind::NoEq);
-                        changed = noeq || was_evicted || p.rec.out != rec.out;
+                        // a less durable result is never backdated: dependants see it as changed
+                        changed = noeq || was_evicted || p.rec.out != rec.out || rec.dur < p.rec.dur;
                         if !changed {
                             step_equal_exec.push(k);
                         }
@@ -259,6 +264,19 @@ impl Oracle for Justify {
         }
         l
     }
+}
+
+/// mixed durabilities: fields of LOW/MEDIUM/HIGH durability, writes that raise or lower a
+/// field's durability; the body interpreter tracks durabilities with salsa's own rules so that
+/// "became less durable" is a recorded cause and "became more durable" is not
+pub fn spec_c03_dur() -> PropSpec {
+    let mut s = spec_c03();
+    s.profile.durs = [3, 2, 2, 0];
+    s.profile.set_dur_pct = 35;
+    s.profile.set_durs = [2, 2, 2, 0];
+    s.profile.ops = [7, 7, 4, 4, 4, 3, 0, 0, 2, 1, 1, 1, 0];
+    s.engine = "seqdur";
+    s
 }
 
 pub fn spec_c03() -> PropSpec {
